@@ -237,8 +237,8 @@ func equations(s snap, tag string, lenient bool, ev *evid.Collector) []*evid.Vio
 	}
 	doc, ok, amb := named(s.MT, s.Raw)
 	fromStruct := strings.HasPrefix(tag, "new-orig:") || strings.HasPrefix(tag, "build-orig:") || strings.HasPrefix(tag, "orig:")
-	if !ok && s.MT == mtDocker1Sig && !amb && !lenient && fromStruct {
-		if _, mjIsJWS, _ := jwsPayload(s.MJ); mjIsJWS || json.Valid(s.Raw) {
+	if !ok && s.MT == mtDocker1Sig && !amb && fromStruct {
+		if _, mjIsJWS, _ := jwsPayload(s.MJ); mjIsJWS || (!lenient && json.Valid(s.Raw)) {
 			// a signed schema1 manifest whose serialisation was produced from the struct
 			// (WithOrig / SetOrig): RawBody is the plain struct rendering without signatures
 			vs = append(vs, evid.V(sigSignedStruct, "media type %s, but RawBody() is not the pretty-JWS document (MarshalJSON is: %v): RawBody()=%s MarshalJSON()=%s [%s]", s.MT, mjIsJWS, clip(s.Raw), clip(s.MJ), tag))
